@@ -158,7 +158,8 @@ def run(tier):
                 qd = calls
             rep.check(okq, "equality-closure", "%s::%s" % (st, f0.name),
                       "the lookup's equality test is neither `k.as_str() == key` nor `*candidate == needle`", site=f0.span, detail=qd)
-            summaries.append(sorted(_canon(ck) for _, _, ck, _ in f.calls() if ck and not ck.endswith(("::map", "::into_mut", "::as_mapping", "::as_mapping_mut", "Into::into", "::to_string", "::to_owned"))))
+            summaries.append(sorted(_canon(ck) for _, _, ck, _ in f.calls() if ck and not ck.endswith(("::map", "::into_mut", "::as_mapping", "::as_mapping_mut", "Into::into", "::to_string", "::to_owned",
+                                                                                                           "Try>::branch", "Try::branch", "::from_residual", "::from_output"))))
         if len(summaries) == 2:
             rep.check(summaries[0] == summaries[1], "sibling-agreement", "%s::as_mapping_get(_mut)_impl" % st,
                       "the shared and mutable lookup implementations no longer make the same calls (hashing, entry lookup)",
